@@ -4,7 +4,12 @@ mod c01;
 mod c02;
 mod c03;
 mod c04;
+mod c05;
+mod simple_model;
 mod c06;
+mod c11;
+mod c12;
+mod c13;
 mod c14;
 mod dev;
 mod gen;
@@ -66,7 +71,11 @@ fn main() {
         "C02" => run_check::<c02::C02>(&opts),
         "C03" => run_check::<c03::C03>(&opts),
         "C04" => run_check::<c04::C04>(&opts),
+        "C05" => run_check::<c05::C05>(&opts),
         "C06" => run_check::<c06::C06>(&opts),
+        "C11" => run_check::<c11::C11>(&opts),
+        "C12" => run_check::<c12::C12>(&opts),
+        "C13" => run_check::<c13::C13>(&opts),
         "C14" => run_check::<c14::C14>(&opts),
         "preflight" => match preflight::decoder_preflight() {
             Ok(()) => {
